@@ -6,6 +6,7 @@ package main
 
 import (
 	"fmt"
+	"go/types"
 	"os"
 	"path/filepath"
 	"strings"
@@ -87,7 +88,28 @@ func loadProgram(cfg *config, repoDir, pkgPath, pkgDir string, harnessDirs []str
 		return nil, fmt.Errorf("entry function %s not found in %s", cfg.entry, pkgPath)
 	}
 	p.noopPkgs = []string{"github.com/apex/log", "github.com/sirupsen/logrus", "log"}
-	p.initPkgs = []string{"github.com/Flowpack/prunner", "github.com/taskctl/taskctl/pkg/scheduler"}
+	p.initPkgs = []string{"github.com/Flowpack/prunner", "github.com/taskctl/taskctl/pkg/scheduler", "github.com/gofrs/uuid"}
+	for name, msg := range map[string]string{
+		"context.Canceled":         "context canceled",
+		"context.DeadlineExceeded": "context deadline exceeded",
+		"io.EOF":                   "EOF",
+		"io.ErrUnexpectedEOF":      "unexpected EOF",
+		"os.ErrNotExist":           "file does not exist",
+		"io/fs.ErrNotExist":        "file does not exist",
+		"os.ErrExist":              "file already exists",
+		"os.ErrPermission":         "permission denied",
+	} {
+		msg := msg
+		p.globalInit[name] = func(i *interpreter, cell *value) {
+			ep := i.prog.ImportedPackage("errors")
+			if ep == nil {
+				return
+			}
+			t := ep.Type("errorString").Type()
+			c := value(structure{msg})
+			*cell = iface{t: types.NewPointer(t), v: &c}
+		}
+	}
 	return p, nil
 }
 
